@@ -200,6 +200,35 @@ static void sched_rng(Json& js, vh::Rng& rng) {
         out.push_back(c[0]);
         out.push_back(c[1]);
     };
+    // an unseeded thread draws the default sequence (seed 0) whatever other threads seed meanwhile
+    {
+        std::vector<double> d0, d1;
+        auto unseeded = [](std::vector<double>& out) {
+            const arr_real a = randn(3);
+            out.assign(a.begin(), a.end());
+        };
+        std::thread r([&] { dsplib::rng(0); unseeded(d0); });
+        r.join();
+        Sched s;
+        s.mask = 2;
+        g_sched = &s;
+        std::vector<double> junk;
+        std::thread t1 = spawn(s, 0, [&] { script(s1, junk); });
+        std::thread t2 = spawn(s, 1, [&] { unseeded(d1); });
+        wait_gate(s, 0);
+        wait_gate(s, 1);
+        advance(s, 0, 1);
+        advance(s, 0, 2);        // thread 1 has seeded and drawn once
+        js.begin("Reset").str("kind", "rng").num("n", 0).num("yields", 1).num("k1", s1).num("k2", 0).end();
+        js.begin("Step").num("t", 1).str("a", "Gen").str("plan", "-").end();
+        advance(s, 1, 1L << 40);  // now the unseeded thread draws for the first time
+        js.begin("Step").num("t", 2).str("a", "Gen").str("plan", "-").end();
+        advance(s, 0, 1L << 40);
+        t1.join();
+        t2.join();
+        g_sched = nullptr;
+        js.begin("Result").num("t", 2).boolean("ok", d1 == d0).boolean("diverged", s.diverged).end();
+    }
     std::vector<double> ref1, ref2;
     {
         std::thread a([&] { script(s1, ref1); });
